@@ -520,6 +520,60 @@ var JavascriptTestValue interface{}
 //
 // What cannot be rendered (NaN, say) is returned as it is, and the
 // operation that gets it will complain.
+// nullsForJavascript gives a binding's JSON nulls (nil here) to the
+// interpreter as null.  Handed over as they are they arrive as
+// undefined: a variable bound to null wasn't null for the script, and
+// neither was a null inside a bound map.
+//
+// What has no nil inside is returned as it is; otherwise a copy is
+// made (the value may be shared with a stored fact).
+func nullsForJavascript(x interface{}) interface{} {
+	if !hasNil(x) {
+		return x
+	}
+	switch vv := x.(type) {
+	case nil:
+		return otto.NullValue()
+	case Map:
+		return nullsForJavascript(map[string]interface{}(vv))
+	case map[string]interface{}:
+		m := make(map[string]interface{}, len(vv))
+		for k, v := range vv {
+			m[k] = nullsForJavascript(v)
+		}
+		return m
+	case []interface{}:
+		a := make([]interface{}, len(vv))
+		for i, v := range vv {
+			a[i] = nullsForJavascript(v)
+		}
+		return a
+	}
+	return x
+}
+
+func hasNil(x interface{}) bool {
+	switch vv := x.(type) {
+	case nil:
+		return true
+	case Map:
+		return hasNil(map[string]interface{}(vv))
+	case map[string]interface{}:
+		for _, v := range vv {
+			if hasNil(v) {
+				return true
+			}
+		}
+	case []interface{}:
+		for _, v := range vv {
+			if hasNil(v) {
+				return true
+			}
+		}
+	}
+	return false
+}
+
 // containsItself is a Javascript function that says whether a value
 // contains itself (var a = {}; a.self = a).
 const containsItself = `(function (v) {
@@ -553,7 +607,47 @@ func exportValue(runtime *otto.Otto, v otto.Value) (interface{}, error) {
 	if v.IsObject() && valueContainsItself(runtime, v) {
 		return nil, errors.New("a value that contains itself can't be used here")
 	}
-	return v.Export()
+	x, err := v.Export()
+	if err != nil {
+		return x, err
+	}
+	return nullsFromJavascript(x), nil
+}
+
+// nullsFromJavascript undoes nullsForJavascript in what a script hands
+// back (say a binding that it returns as it got it).
+func nullsFromJavascript(x interface{}) interface{} {
+	switch vv := x.(type) {
+	case otto.Value:
+		if vv.IsNull() || vv.IsUndefined() {
+			return nil
+		}
+		if y, err := vv.Export(); err == nil {
+			return y
+		}
+	case map[string]interface{}:
+		for k, v := range vv {
+			if w := nullsFromJavascript(v); !sameValue(v, w) {
+				vv[k] = w
+			}
+		}
+	case []interface{}:
+		for i, v := range vv {
+			if w := nullsFromJavascript(v); !sameValue(v, w) {
+				vv[i] = w
+			}
+		}
+	}
+	return x
+}
+
+// sameValue says whether nullsFromJavascript left the value alone
+// (so that maps we don't own aren't written to needlessly).
+func sameValue(v, w interface{}) bool {
+	if _, was := v.(otto.Value); was {
+		return false
+	}
+	return true
 }
 
 func valueContainsItself(runtime *otto.Otto, v otto.Value) (cyclic bool) {
@@ -627,6 +721,7 @@ func RunJavascript(ctx *Context, bs *Bindings, props map[string]interface{}, src
 			if loggable(ctx, DEBUG) {
 				Log(DEBUG, ctx, "core.RunJavascript", "var", k, "val", Gorep(v), "type", fmt.Sprintf("%T", v))
 			}
+			v = nullsForJavascript(v)
 			if err := runtime.Set(k, v); err != nil {
 				Log(WARN, ctx, "core.RunJavascript", "var", k, "val", Gorep(v), "when", "Set",
 					"error", err)
